@@ -58,12 +58,13 @@ RValComplete == /\ ph = "val" /\ Len(buf) >= need /\ RRet(Decoded(buf), "idle")
                 /\ UNCHANGED <<cut, lenbuf, need, buf, rd, nintr, nreads, rsched>>
 Want == IF ph = "len" THEN 4 - Len(lenbuf) ELSE need - Len(buf)
 Reading == (ph = "len" /\ Len(lenbuf) < 4) \/ (ph = "val" /\ Len(buf) < need)
-RDeliver == /\ Reading /\ Avail > 0
-            /\ \E k \in 1..Min2(Want, Avail) :
-                 LET got == SubSeq(Stream, rd + 1, rd + k) IN
-                 /\ rd' = rd + k /\ RLog([a |-> "deliver", k |-> k])
-                 /\ IF ph = "len" THEN lenbuf' = lenbuf \o got /\ UNCHANGED buf ELSE buf' = buf \o got /\ UNCHANGED lenbuf
-            /\ nintr' = 0 /\ UNCHANGED <<cut, ph, need, out, nreads>>
+\* (RDeliverK(k) / WAcceptK(k): the actions for a given k - what a recorded event binds)
+RDeliverK(k) == /\ Reading /\ Avail > 0 /\ k \in 1..Min2(Want, Avail)
+                /\ LET got == SubSeq(Stream, rd + 1, rd + k) IN
+                   /\ rd' = rd + k /\ RLog([a |-> "deliver", k |-> k])
+                   /\ IF ph = "len" THEN lenbuf' = lenbuf \o got /\ UNCHANGED buf ELSE buf' = buf \o got /\ UNCHANGED lenbuf
+                /\ nintr' = 0 /\ UNCHANGED <<cut, ph, need, out, nreads>>
+RDeliver == \E k \in 1..Min2(Want, Avail) : RDeliverK(k)
 RIntr == /\ Reading /\ nintr < MaxIntr /\ nintr' = nintr + 1 /\ RLog([a |-> "intr", k |-> 0])
          /\ UNCHANGED <<cut, ph, lenbuf, need, buf, rd, out, nreads>>
 REof == /\ Reading /\ Avail = 0 /\ RLog([a |-> "eof", k |-> 0])
@@ -106,9 +107,10 @@ WComplete == /\ wph = "writing" /\ woff >= Len(wbuf) /\ wph' = "idle" /\ wout' =
              /\ done' = Append(done, wbuf[1][1])
              /\ UNCHANGED <<wbuf, woff, sink, wn, nfault, wintr, wsched>>
 Writing == wph = "writing" /\ woff < Len(wbuf)
-WAccept == /\ Writing /\ \E k \in 1..(Len(wbuf) - woff) :
-                 sink' = sink \o SubSeq(wbuf, woff + 1, woff + k) /\ woff' = woff + k /\ WLog([a |-> "accept", k |-> k])
-           /\ wintr' = 0 /\ UNCHANGED <<wph, wbuf, wn, wout, nfault, done>>
+WAcceptK(k) == /\ Writing /\ k \in 1..(Len(wbuf) - woff)
+               /\ sink' = sink \o SubSeq(wbuf, woff + 1, woff + k) /\ woff' = woff + k /\ WLog([a |-> "accept", k |-> k])
+               /\ wintr' = 0 /\ UNCHANGED <<wph, wbuf, wn, wout, nfault, done>>
+WAccept == \E k \in 1..(Len(wbuf) - woff) : WAcceptK(k)
 WIntr == /\ Writing /\ wintr < MaxIntr /\ wintr' = wintr + 1 /\ WLog([a |-> "intr", k |-> 0])
          /\ UNCHANGED <<wph, wbuf, woff, sink, wn, wout, nfault, done>>
 \* a failed write leaves a torn frame in the sink: the stream is broken from there on (dead)
